@@ -33,7 +33,7 @@ def main():
             rejected += 1
             metas = (o.get("op_meta") or [[]])[si] if si < len(o.get("op_meta") or []) else []
             msg = ans["tagged_msgs"][0]
-            key = stream_checks.classify_tagged(msg, metas) or stream_checks.classify_source(o, msg)
+            key = stream_checks.classify_source(o, msg) or stream_checks.classify_tagged(msg, metas)
             ck.violation(f"read of undefined/stale/foreign bytes: {msg} (network {o['idx']} {o['profile']} {o.get('opts')})",
                          stream_checks.replay_obj(o, si, ans, line), key=key)
     # whole-inference execution: CPU operators and every Ethos-U stream of the output graph on one tagged memory
